@@ -120,6 +120,16 @@ class Catalogue:
             for arm in m.get("arms", []):
                 if arm["body"].get("ty") == "float":
                     vals[arm["pat"].get("path", "").split("::")[-1]] = float(arm["body"]["v"])
+        if vals != {"LeftEdge": 0.0, "Half": 0.5}:
+            # not a plain match with literal arms: decided path by path (`if self.start_edge == Horizontal::Half { 0.5 } else { 0.0 }`)
+            ep = one("circle_map::CircleArt::edge_increment_x")
+            hadt_ = prog.adts.get("svgbob::map::circle_map::Horizontal")
+            if ep and hadt_:
+                got = {}
+                for var, ret in paths_by_variant(prog, ep, [v_["name"] for v_ in hadt_["variants"]]):
+                    got.setdefault(var, set()).add(float(ret[2]) if ret[0] == "const" and ret[1] == "float" else None)
+                if all(len(v_) == 1 and None not in v_ for v_ in got.values()) and None not in got:
+                    vals = {k: list(v_)[0] for k, v_ in got.items()}
         if vals == {"LeftEdge": 0.0, "Half": 0.5}:
             run.ok(rule, "model conformance: edge_increment_x = {LeftEdge: 0, Half: 0.5}", "%s:%d" % (self.file, it["pos"][0]))
         else:
@@ -184,6 +194,33 @@ class Catalogue:
                 mentions(r[0], lambda z: z[0] == "call" and "floor" in z[1])
             run.ok(rule, "model conformance: CircleArt::diameter = floor(radius * 2)", where(prog.bodies[p])) if ok else bad("CircleArt::diameter", p, expr_str(r[0])[:120] if r else "?")
         return ok_all
+
+
+
+def paths_by_variant(prog, p, names, field="start_edge"):
+    """the paths of a function that dispatches on the field-less enum stored in self.<field> - by `match`, `if let`, or
+    `== Variant` with the derived equality - as [(variant name | None, return expression)]"""
+    from .mirlib import paths as mir_paths
+    out = []
+    for conds, ret in (mir_paths(prog, p) or []):
+        var = None
+        for c, tk in conds:
+            c = strip(c)
+            if c[0] == "discr" and strip(c[1])[0] == "param" and strip(c[1])[2][-1:] == (field,):
+                if isinstance(tk, tuple):
+                    rest = [i for i in range(len(names)) if i not in tk[1]]
+                    var = names[rest[0]] if len(rest) == 1 else None
+                elif 0 <= tk < len(names):
+                    var = names[tk]
+            if c[0] == "call" and re.search(r" as core::cmp::PartialEq>::eq$", c[1]) and len(c[2]) == 2 and len(names) == 2 and c[1] in prog.bodies and \
+                    [strip(r_) for r_ in Expr(prog, c[1]).returns()] == [("bin", "Eq", ("discr", ("param", 1, ())), ("discr", ("param", 2, ())))]:
+                a0, a1 = strip(c[2][0]), strip(c[2][1])
+                if a1[0] == "param":
+                    a0, a1 = a1, a0
+                if a0[0] == "param" and a0[2][-1:] == (field,) and a1[0] == "agg" and a1[2] in names:
+                    var = a1[2] if tk != 0 else [n for n in names if n != a1[2]][0]
+        out.append((var, strip(ret)))
+    return out
 
 
 def gap_to_circle(cell, center, radius):
